@@ -7,6 +7,24 @@ from .terms import Term
 from .load import AnalysisError, FuncInfo
 
 
+class TK:
+    """a symbolic term used as key of an exact dictionary (concrete-control scenarios): identity of the term is the key"""
+
+    __slots__ = ("term",)
+
+    def __init__(self, term):
+        self.term = term
+
+    def __hash__(self):
+        return hash(("TK", self.term.uid))
+
+    def __eq__(self, other):
+        return isinstance(other, TK) and other.term is self.term
+
+    def __repr__(self):
+        return "TK(%s)" % self.term.uid
+
+
 class HObj:
     """kind: list | dict | obj | bytearray | set"""
 
